@@ -204,7 +204,6 @@ PAIRING = [
     (r'^C09\.(get\.|next\.|iter)', lambda m: 'c09'),
     (r'^C10\.(verify_ident|parse_ident|from_ei_data)\.', lambda m: 'c10'),
     (r'^(C12\.sysv_hash|C11\.gnu_hash|proof:hash::sysv_hash|proof:hash::gnu_hash)', lambda m: 'hash'),
-    (r'^(C20\.(common|symbol_table|dynamic_symbol_table|dynamic|as_symtab)\.|proof:elf_bytes::ElfBytes::(find_common_data|symbol_table|dynamic_symbol_table|dynamic))', lambda m: 'c20'),
     (r'^C14\.(note|iter)\.', lambda m: ['c14_a4', 'c14_a8', 'c14_a3']),
     (r'^C03\.(section_range|segment_range|section_data|segment_data)\.', lambda m: 'c03_range'),
     (r'^C1[36]\.VerNeedIterator\.next\.', lambda m: 'c13_need'),
